@@ -67,4 +67,26 @@ theorem C07_failure_propagates :
   simp only [hst, beq_self_eq_true, Bool.not_true, Bool.false_or, beq_iff_eq] at this
   exact this
 
+/-- calls that end (commit) or restart the executor's transaction -/
+def txEnd (n : String) : Bool :=
+  hasSub "finish_transaction" n || hasSub "new_transaction" n || hasSub "commit" n
+
+def txMon : Mon Bool := ⟨fun st e => st || (match e with | .call n => txEnd n | _ => false)⟩
+
+set_option maxRecDepth 16384 in
+/-- **the code that runs inside one `with sql_executor` block — model creation, a task's evolution
+SQL, a purge, the batch loop — never ends the executor's transaction itself**, on any path
+including the exceptional ones: committing is left to `SQLExecutor.__exit__`, which sees the
+exception (C07_atomic then applies to the whole block).  Re-checked on the regenerated
+skeletons on every run. -/
+theorem C07_no_transaction_end_inside_tasks :
+    ∀ s ∈ [Generated.taskCreateModels, Generated.taskExecute, Generated.purgeExecute, Generated.taskExecuteTasks],
+      ∀ tr o, Exec s tr o → Mon.run txMon false tr = false := by
+  intro s hs tr o hex
+  have key : checkAll txMon 8 s false (fun _ st => !st) = true := by
+    simp only [List.mem_cons, List.not_mem_nil, or_false] at hs
+    rcases hs with h | h | h | h <;> subst h <;> decide
+  have := reach_all txMon 8 s false (fun _ st => !st) key tr o hex
+  simpa using this
+
 end DEvo.Props.C07
